@@ -3,6 +3,7 @@ CONSTANTS NP = 3
  NF = 0
  NA = 2
  NC = 0
+ NS = 5
  Light = FALSE
 INIT InitGen
 NEXT EvalGen
